@@ -34,7 +34,7 @@ def MemOK : Ty → V → Bytes → Prop
     | p, .num n => n < 256 ^ p.memSize ∧ mem = leBytes p.memSize n
     | _, _ => False
   | .arr _ t, .tup l, mem => AllCat (MemOK t) l mem
-  | .wrap true t, x, mem => MemOK t x mem
+  | .wrap .cell t, x, mem => MemOK t x mem
   | .tup lay offs ts, .tup l, mem => mem.length = lay.size ∧ MemOKTup offs ts l mem
   | .struct _ _ lay fs, .tup l, mem => mem.length = lay.size ∧ MemOKFields fs l mem
   | .enum _ repr lay vs, .alt i (.tup l), mem =>
